@@ -469,3 +469,88 @@ SCENARIOS = SCENARIOS + [
     Scenario("C12.builder.constant_cache[mixed shapes]", s_constant_cache_mixed, F(BUILDER, "GraphBuilder._get_or_create_constant", "_constant_cache_key"),
              kind="bounded", bound="scalar, 2- and 3-element sequences; element values unbounded (IEEE doubles, ints below 2**53, bools)"),
 ]
+
+
+def s_builder_get_schema(ctx):
+    """BuilderBase._get_schema(op_type, domain, version): the schema of THIS (op, version, domain) request — whatever
+    was asked before on this or another builder in the process (the type constraints that decide how a literal is
+    promoted differ between opset versions of one operator)."""
+    import onnx
+    from onnxscript._internal import tape_builder
+    I = Interp(ctx)
+
+    class Schema:
+        def __init__(self, op, version, domain):
+            self.op, self.version, self.domain = op, version, domain
+    known = z3.Function("SchemaExists", z3.IntSort(), z3.BoolSort())
+    calls = []
+
+    def m_get_schema(interp, op, version=None, domain=""):
+        calls.append((op, version, domain))
+        if interp.ctx.branch(known(term(version))):
+            return Schema(op, version, domain)
+        raise PyRaise(onnx.defs.SchemaError("no schema"))
+    I.models[onnx.defs.get_schema] = m_get_schema
+    b1 = SObj(tape_builder.BuilderBase, "builder1")
+    b2 = SObj(tape_builder.BuilderBase, "builder2") if ctx.choose(2, "second request on another builder") == 1 else b1
+    v1, v2 = ctx.int("version1"), ctx.int("version2")
+    ctx.witness["version1"], ctx.witness["version2"] = v1, v2
+    first_none = ctx.choose(2, "first request without a version") == 1
+    clo = I.closure_of(tape_builder.BuilderBase._get_schema)
+    I.run_closure(clo, [b1, "BatchNormalization", "", None if first_none else SInt(v1)], {})
+    second_none = ctx.choose(2, "second request without a version") == 1
+    r = I.run_closure(clo, [b2, "BatchNormalization", "", None if second_none else SInt(v2)], {})
+    if second_none:
+        ctx.check("C12.builder.get_schema.none_without_a_version", r is None, "C12")
+        return
+    if isinstance(r, Schema):
+        ctx.check("C12.builder.get_schema.schema_is_the_one_of_the_requested_version", z3.And(term(r.version) == v2, known(v2)) if r.op == "BatchNormalization" and r.domain == "" else False,
+                  "C12: 'a literal ... takes the element type of the tensor operands it is constrained to match' — by the signature of the opset version in use, "
+                  "independent of what was built before (C14)")
+    else:
+        ctx.check("C12.builder.get_schema.none_only_if_the_registry_has_no_schema_for_this_version", z3.Not(known(v2)) if r is None else False, "C12")
+
+
+SCENARIOS = SCENARIOS + [
+    Scenario("C12.builder.get_schema", s_builder_get_schema, F("onnxscript/_internal/tape_builder.py", "BuilderBase._get_schema"),
+             trusted=["onnx.defs.get_schema(op, version, domain) is a function of its arguments (raises SchemaError when absent)"]),
+]
+
+
+def s_cast_pyvalue(ctx):
+    """autocast.cast_pyvalue_to_os_tensor (eager promotion): a Python literal becomes a tensor of EXACTLY the requested
+    element type (the type bound by the sibling tensor operands), of the default type of its Python type otherwise; any
+    other value is passed through untouched."""
+    import numpy as np
+    from onnxscript._internal import autocast
+    from onnxscript import tensor
+    I = Interp(ctx)
+    I.models[np.array] = lambda interp, v, dtype=None: ("array", v, dtype)
+    I.models[tensor.Tensor] = lambda interp, arr, *a: ("Tensor", arr)
+    class NotALiteral:
+        pass
+    vals = [True, 3, 2.5, [True, False], [1, 2], [0.5, -0.0], "text", [], None, NotALiteral(), np.zeros(2), ["a"], (1, 2)]
+    v = vals[ctx.choose(len(vals), "python value")]
+    dts = [None, np.float32, np.float64, np.float16, np.int64, np.int32, np.uint8, np.bool_]
+    dt = dts[ctx.choose(len(dts), "requested dtype")]
+    try:
+        r = I.run_closure(I.closure_of(autocast.cast_pyvalue_to_os_tensor), [v] + ([dt] if dt is not None else []), {})
+    except PyRaise as e:
+        ctx.check("C12.eager.cast_pyvalue.never_raises_for_these_values", False, "C12")
+        return
+    first = v[0] if isinstance(v, list) and v else v
+    promotable = isinstance(first, (bool, int, float)) and not (isinstance(v, list) and not v) and not isinstance(v, tuple)
+    if not promotable:
+        ctx.check("C12.eager.cast_pyvalue.other_values_pass_through", r is v, "C12")
+        return
+    default = np.bool_ if isinstance(first, bool) else (np.int64 if isinstance(first, int) else np.float32)
+    want = ("Tensor", ("array", v, dt if dt is not None else default))
+    ctx.check("C12.eager.cast_pyvalue.literal_gets_the_requested_element_type_else_the_default_of_its_python_type", r == want,
+              "C12: 'a literal ... takes the element type of the tensor operands it is constrained to match, otherwise INT64, FLOAT or BOOL by Python type' — "
+              "the same in eager mode as in the converter (CastLike) and the builder")
+
+
+SCENARIOS = SCENARIOS + [
+    Scenario("C12.eager.cast_pyvalue", s_cast_pyvalue, F("onnxscript/_internal/autocast.py", "cast_pyvalue_to_os_tensor", "_promotable", "_get_dtype"),
+             kind="evaluation" if False else "deductive", trusted=["np.array(value, dtype) converts to dtype (numpy)"]),
+]
